@@ -24,13 +24,41 @@ type OpSpec struct {
 //
 // A fault-free document with an anonymous operation next to other operations is still invalid
 // (GraphQL spec 5.2.2.1, lone anonymous operation); Class() reports that as "validation".
+//
+// Names selects the operation names by position: "" = A, B, C; otherwise one of nameSchemes, whose
+// names are related without being equal (case variants, prefixes, trailing underscore/digit).
 type DocSpec struct {
 	Ops     []OpSpec `json:"ops"`
 	Fault   string   `json:"fault"`
 	FaultAt int      `json:"fault_at"`
+	Names   string   `json:"names,omitempty"`
 }
 
 var opNames = []string{"A", "B", "C"}
+
+// nameSchemes: names by position. Each scheme also exists reversed, so that both "the shorter /
+// lower-case name first" and "the longer / upper-case name first" occur with every kind order.
+var nameSchemes = map[string][]string{
+	"case":       {"getUser", "GetUser", "GETUSER"},
+	"case-rev":   {"GETUSER", "GetUser", "getUser"},
+	"prefix":     {"Get", "GetU", "GetUser"},
+	"prefix-rev": {"GetUser", "GetU", "Get"},
+	"suffix":     {"Op", "Op_", "Op1"},
+	"suffix-rev": {"Op1", "Op_", "Op"},
+}
+
+var nameSchemeOrder = []string{"case", "case-rev", "prefix", "prefix-rev", "suffix", "suffix-rev"}
+
+func (d DocSpec) names() []string {
+	if d.Names == "" {
+		return opNames
+	}
+	n, ok := nameSchemes[d.Names]
+	if !ok {
+		panic("unknown name scheme " + d.Names)
+	}
+	return n
+}
 
 // What one operation selects, what its resolver event looks like in handschema.Log and what
 // data it yields, by (kind, position). Every position uses a different field or argument so
@@ -59,7 +87,7 @@ var fieldTable = map[string][3]fieldInfo{
 // Name returns the name of operation i ("" when anonymous).
 func (d DocSpec) Name(i int) string {
 	if d.Ops[i].Form == "named" {
-		return opNames[i]
+		return d.names()[i]
 	}
 	return ""
 }
@@ -76,7 +104,7 @@ func (d DocSpec) Text() string {
 		}
 		switch op.Form {
 		case "named":
-			parts = append(parts, fmt.Sprintf("%s %s { %s }", op.Kind, opNames[i], sel))
+			parts = append(parts, fmt.Sprintf("%s %s { %s }", op.Kind, d.names()[i], sel))
 		case "anon":
 			parts = append(parts, fmt.Sprintf("%s { %s }", op.Kind, sel))
 		case "short":
@@ -154,6 +182,30 @@ func enumerateDocs(maxOps int) []DocSpec {
 	for n := 1; n <= maxOps; n++ {
 		rec(nil, n)
 	}
+	return append(out, enumerateRelatedNameDocs(maxOps)...)
+}
+
+// enumerateRelatedNameDocs: every fault-free document of 1..maxOps NAMED operations (all kind
+// sequences) under every name scheme. These are all valid documents; what varies is how close
+// the operation names are to each other and (opNameChoices) to the requested operationName.
+func enumerateRelatedNameDocs(maxOps int) []DocSpec {
+	var out []DocSpec
+	kinds := []string{"query", "mutation", "subscription"}
+	var rec func(prefix []OpSpec, n int, scheme string)
+	rec = func(prefix []OpSpec, n int, scheme string) {
+		if len(prefix) == n {
+			out = append(out, DocSpec{Ops: append([]OpSpec(nil), prefix...), Names: scheme})
+			return
+		}
+		for _, k := range kinds {
+			rec(append(prefix, OpSpec{k, "named"}), n, scheme)
+		}
+	}
+	for n := 1; n <= maxOps; n++ {
+		for _, sch := range nameSchemeOrder {
+			rec(nil, n, sch)
+		}
+	}
 	return out
 }
 
@@ -165,13 +217,47 @@ type OpNameChoice struct {
 
 const unknownOpName = "Zz"
 
-// opNameChoices: absent, each defined name, one unknown name.
+// nearMisses of a present name: other case, a proper prefix, an extension, surrounding space.
+func nearMisses(n string) []string {
+	out := []string{strings.ToUpper(n), strings.ToLower(n), n + "x", " " + n, n + " "}
+	if len(n) > 1 {
+		out = append(out, n[:len(n)-1])
+		// first letter in the other case
+		f := n[:1]
+		if f == strings.ToUpper(f) {
+			f = strings.ToLower(f)
+		} else {
+			f = strings.ToUpper(f)
+		}
+		out = append(out, f+n[1:])
+	}
+	return out
+}
+
+// opNameChoices: absent, each defined name, one unknown name; for documents with related names
+// (d.Names != "") also every near-miss of every defined name. A near-miss that happens to equal
+// another defined name is just that name (listed once).
 func opNameChoices(d DocSpec) []OpNameChoice {
 	out := []OpNameChoice{{}}
-	for i := range d.Ops {
-		if n := d.Name(i); n != "" {
+	seen := map[string]bool{}
+	add := func(n string) {
+		if !seen[n] {
+			seen[n] = true
 			out = append(out, OpNameChoice{true, n})
 		}
 	}
-	return append(out, OpNameChoice{true, unknownOpName})
+	for i := range d.Ops {
+		if n := d.Name(i); n != "" {
+			add(n)
+		}
+	}
+	add(unknownOpName)
+	if d.Names != "" {
+		for i := range d.Ops {
+			for _, m := range nearMisses(d.Name(i)) {
+				add(m)
+			}
+		}
+	}
+	return out
 }
